@@ -4,6 +4,7 @@ import (
 	"encoding/json"
 	"flag"
 	"fmt"
+	"hash/fnv"
 	"os"
 	"path/filepath"
 	"regexp"
@@ -25,21 +26,22 @@ type KnownFinding struct {
 }
 
 type Report struct {
-	Prop       string
-	Tier       string
-	Seed       int
-	Funcs      []string
-	Obs        []*Obligation
-	Errs       []string
-	Abstr      map[string]int
-	Assum      map[string]bool
-	Dropped    map[string]int
-	Extra      map[string]any
-	Violations []Violation
-	Known      []string
-	Wall       float64
-	Bounded    []map[string]any
+	Prop        string
+	Tier        string
+	Seed        int
+	Funcs       []string
+	Obs         []*Obligation
+	Errs        []string
+	Abstr       map[string]int
+	Assum       map[string]bool
+	Dropped     map[string]int
+	Extra       map[string]any
+	Violations  []Violation
+	Known       []string
+	Wall        float64
+	Bounded     []map[string]any
 	StructFails []StructOb
+	verifDir    string
 }
 
 type Violation struct {
@@ -177,7 +179,13 @@ func cmdDump(args []string) int {
 }
 
 func sanitize(s string) string {
-	return regexp.MustCompile(`[^A-Za-z0-9_.-]+`).ReplaceAllString(s, "_")
+	h := fnv.New32a()
+	h.Write([]byte(s))
+	out := regexp.MustCompile(`[^A-Za-z0-9_.-]+`).ReplaceAllString(s, "_")
+	if len(out) > 150 {
+		out = out[:150]
+	}
+	return fmt.Sprintf("%s.%08x", out, h.Sum32())
 }
 
 func cmdCheck(args []string) int {
@@ -193,7 +201,7 @@ func cmdCheck(args []string) int {
 	seed, _ := strconv.Atoi(os.Getenv("VERIF_SEED"))
 	t0 := time.Now()
 	L, db, err := loadAll(*repo, *verif)
-	rep := &Report{Prop: *prop, Tier: *tier, Seed: seed, Abstr: map[string]int{}, Assum: map[string]bool{}, Dropped: map[string]int{}, Extra: map[string]any{}}
+	rep := &Report{verifDir: *verif, Prop: *prop, Tier: *tier, Seed: seed, Abstr: map[string]int{}, Assum: map[string]bool{}, Dropped: map[string]int{}, Extra: map[string]any{}}
 	if err != nil {
 		// the tree does not load with contracts: undecided, reported as a violation without input
 		rep.Errs = append(rep.Errs, "load: "+err.Error())
@@ -213,6 +221,7 @@ func cmdCheck(args []string) int {
 var extraChecks = map[string][]func(*Loaded, *ContractDB, *Report){
 	"C12": {fileLoopObligations},
 	"C17": {frameObligations},
+	"C04": {determinismObligations},
 }
 
 func runDeductive(L *Loaded, db *ContractDB, rep *Report) {
